@@ -1,15 +1,17 @@
-//! symx — runs the repository's real prover / verifier / codec on symbolic values (model dependency
-//! crates patched in) and dumps the recorded term DAG, logs and events as JSON for the SMT side.
+//! symx / replay — runs the repository's real prover / verifier / codec on a scenario.
 //!
-//! usage: symx '<json scenario>'   (see smt/scenarios.py for the generators)
+//! * feature `model` (crate /verif/symx): the dependency crates are the model crates of /verif/shim, all
+//!   scalars / points / hashes are symbolic, and the recorded term DAG, logs and events are dumped as JSON
+//!   for the SMT side (Engine S of DESIGN.md);
+//! * without it (crate /verif/replay): the very same scenario on the real curve25519-dalek / merlin /
+//!   blake2 / sha3 with pseudo-random concrete values — used to replay solver counterexamples.
+//!
+//! usage: symx '<json scenario>' | symx @file.json
 use std::panic::{catch_unwind, AssertUnwindSafe};
-use std::sync::Mutex;
 
 use curve25519_dalek::{ristretto::RistrettoPoint, scalar::Scalar};
 use merlin::Transcript;
-use rand_core::{CryptoRng, RngCore};
 use serde_json::{json, Value};
-use symcore::{with, Blob, U64Reg};
 use tari_bulletproofs_plus::{
     commitment_opening::CommitmentOpening,
     extended_mask::ExtendedMask,
@@ -22,159 +24,52 @@ use tari_bulletproofs_plus::{
 };
 
 mod codec;
+#[cfg(feature = "model")]
+#[path = "env_model.rs"]
+mod env;
+#[cfg(not(feature = "model"))]
+#[path = "env_real.rs"]
+mod env;
+#[cfg(feature = "model")]
+mod hook;
+use env::SymRng;
 
-/// external RNG handed to the prover
-pub struct SymRng {
-    stream: u32,
-    ctr: u32,
-    model: String,
-}
-impl SymRng {
-    pub fn new(model: &str) -> SymRng {
-        let stream = with(|c| {
-            let s = c.ext_streams;
-            c.ext_streams += 1;
-            s
-        });
-        SymRng { stream, ctr: 0, model: model.to_string() }
-    }
-    /// a second handle on the same stream from its start (a replayed stream)
-    pub fn replay_of(other: &SymRng) -> SymRng {
-        SymRng { stream: other.stream, ctr: 0, model: other.model.clone() }
-    }
-}
-impl RngCore for SymRng {
-    fn next_u32(&mut self) -> u32 {
-        self.next_u64() as u32
-    }
-    fn next_u64(&mut self) -> u64 {
-        let mut b = [0u8; 8];
-        self.fill_bytes(&mut b);
-        u64::from_le_bytes(b)
-    }
-    fn fill_bytes(&mut self, dest: &mut [u8]) {
-        match self.model.as_str() {
-            "zero" => {
-                for x in dest.iter_mut() {
-                    *x = 0;
-                }
-            },
-            "const" => {
-                for x in dest.iter_mut() {
-                    *x = 0x42;
-                }
-            },
-            m => {
-                // "sym": every draw a fresh symbol; "period2": draws repeat with period 2
-                let ctr = if m == "period2" { self.ctr % 2 } else { self.ctr };
-                self.ctr += 1;
-                with(|c| {
-                    let id = c.blob(Blob::Ext { stream: self.stream, ctr, len: dest.len() as u32 });
-                    c.enc_n(id, dest);
-                });
-            },
-        }
-    }
-    fn try_fill_bytes(&mut self, dest: &mut [u8]) -> Result<(), rand_core::Error> {
-        self.fill_bytes(dest);
-        Ok(())
-    }
-}
-impl CryptoRng for SymRng {}
-
-// ------------------------------------------------------------------------------------------------
-// bit hook: replaces the concrete bit vector by symbolic bits (DESIGN.md §2.1 (ii))
-
-struct HookState {
-    enabled: bool,
-    calls: Vec<Value>,
-    side: Vec<Value>,
-    member: usize,
-}
-static HOOK: Mutex<HookState> = Mutex::new(HookState { enabled: false, calls: Vec::new(), side: Vec::new(), member: 0 });
-
-fn bit_hook(a_li: &mut Vec<Scalar>, a_ri: &mut Vec<Scalar>, values: &[u64], promises: &[Option<u64>], bits: usize) {
-    let mut h = HOOK.lock().unwrap();
-    let member = h.member;
-    let mut call = json!({"member":member,"values":values.iter().map(|v| v.to_string()).collect::<Vec<_>>(),
-        "bits":bits,"len_li":a_li.len(),"len_ri":a_ri.len(),"replaced":false});
-    if !h.enabled {
-        h.calls.push(call);
-        return;
-    }
-    let mut ok = a_li.len() == values.len() * bits && a_ri.len() == a_li.len() && promises.len() == values.len();
-    let mut betas: Vec<Vec<u32>> = Vec::new();
-    if ok {
-        for (j, v) in values.iter().enumerate() {
-            let p = promises[j].unwrap_or(0);
-            let o = v.wrapping_sub(p);
-            let mut row = Vec::new();
-            for i in 0..bits {
-                let bit = (o >> i) & 1;
-                let li = a_li[j * bits + i];
-                let ri = a_ri[j * bits + i];
-                // the entries we replace must be exactly bit and bit-1
-                if li != Scalar::from(bit as u8) || ri != Scalar::from(bit as u8) - Scalar::ONE {
-                    ok = false;
-                }
-                let name = format!("beta_{}_{}_{}", member, j, i);
-                let node = with(|c| c.var(&name, "bit", Some(symcore::fl::Fl::from_u64(bit)), json!({"member":member,"j":j,"i":i})));
-                row.push(node);
-            }
-            betas.push(row);
-        }
-    }
-    if ok {
-        for (j, row) in betas.iter().enumerate() {
-            for (i, node) in row.iter().enumerate() {
-                let b = Scalar::from_node(*node);
-                a_li[j * bits + i] = b;
-                a_ri[j * bits + i] = b - Scalar::ONE;
-                h.side.push(json!({"kind":"bool","node":node}));
-            }
-            // definition of the value: v_j = p_j + sum beta * 2^i   (as nodes; v and p may be variables or constants)
-            let vnode = Scalar::from(values[j]).node();
-            let pnode = match promises[j] {
-                Some(p) => Scalar::from(p).node(),
-                None => 0,
-            };
-            h.side.push(json!({"kind":"value_def","member":member,"j":j,"v":vnode,"p":pnode,"bits":row}));
-        }
-        call["replaced"] = json!(true);
-    } else {
-        call["mismatch"] = json!(true);
-    }
-    h.calls.push(call);
-}
-
-// ------------------------------------------------------------------------------------------------
-
-fn ext_degree(x: usize) -> ExtensionDegree {
+pub fn ext_degree(x: usize) -> ExtensionDegree {
     ExtensionDegree::try_from(x).expect("extension degree")
 }
 
 pub struct Member {
     pub statement: RangeStatement<RistrettoPoint>,
     pub witness: Option<RangeWitness>,
+    pub witness_err: Option<String>,
     pub proof: Option<RistrettoRangeProof>,
+    pub blindings: Vec<Vec<Scalar>>,
     pub info: Value,
 }
 
 /// picks concrete numbers that stand for symbolic u64 variables
-struct Picker {
-    used: Vec<u64>,
-    salt: u64,
+pub struct Picker {
+    pub used: Vec<u64>,
+    pub salt: u64,
 }
 impl Picker {
-    fn pick(&mut self, lo: u64, hi_incl: u64) -> Option<u64> {
+    pub fn pick(&mut self, lo: u64, hi_incl: u64) -> Option<u64> {
         if hi_incl < lo {
             return None;
         }
         let span = hi_incl - lo;
-        for t in 0..64u64 {
+        for t in 0..96u64 {
             self.salt = self.salt.wrapping_mul(6364136223846793005).wrapping_add(1442695040888963407);
-            let c = if span == u64::MAX { self.salt } else { lo + (self.salt >> 11) % (span + 1) };
-            let c = if t > 40 { lo + (t - 41) % (span.saturating_add(1).max(1)) } else { c };
+            let c = if t < 48 {
+                if span == u64::MAX {
+                    self.salt
+                } else {
+                    lo + (self.salt >> 11) % (span + 1)
+                }
+            } else {
+                // systematic sweep from the top when random draws keep colliding (tiny ranges)
+                hi_incl.wrapping_sub(t - 48)
+            };
             if c >= lo && c <= hi_incl && !self.used.contains(&c) {
                 self.used.push(c);
                 return Some(c);
@@ -184,7 +79,7 @@ impl Picker {
     }
 }
 
-fn action_of(s: &str) -> VerifyAction {
+pub fn action_of(s: &str) -> VerifyAction {
     match s {
         "VerifyOnly" => VerifyAction::VerifyOnly,
         "RecoverAndVerify" => VerifyAction::RecoverAndVerify,
@@ -193,35 +88,47 @@ fn action_of(s: &str) -> VerifyAction {
     }
 }
 
-fn err_json<T>(r: &Result<T, tari_bulletproofs_plus::errors::ProofError>) -> Value {
+pub fn err_json<T>(r: &Result<T, tari_bulletproofs_plus::errors::ProofError>) -> Value {
     match r {
         Ok(_) => json!("ok"),
         Err(e) => json!({"err": format!("{:?}", e)}),
     }
 }
 
-fn proof_layout(bytes: &[u8]) -> Value {
-    with(|c| {
-        let pieces = c.scan(bytes);
-        json!({"len": bytes.len(), "pieces": pieces.iter().map(|p| match p {
-            symcore::Piece::Lit(b) => json!({"lit": symcore::hex(b)}),
-            symcore::Piece::Blob(id) => json!({"blob": id}),
-            symcore::Piece::U64(i) => json!({"u64": i}),
-        }).collect::<Vec<_>>()})
-    })
+pub fn masks_json(masks: &[Option<ExtendedMask>]) -> Value {
+    Value::Array(
+        masks
+            .iter()
+            .map(|mk| match mk {
+                None => Value::Null,
+                Some(em) => json!(em.blindings().unwrap().iter().map(env::scalar_id).collect::<Vec<_>>()),
+            })
+            .collect(),
+    )
 }
 
-/// Builds one batch member. cfg keys: m, cap, seeded, promises (list: null | "sym" | number-string),
-/// values ("sym" | list of number strings), blind ("sym"), prove (bool), rng model, label.
+/// a generator of a parameter set, by name: {"b":"h"} | {"b":"g","k":0} | {"b":"G","i":3} | {"b":"H","i":3} | {"b":"free"}
+pub fn named_basis(params: &RangeParameters<RistrettoPoint>, spec: &Value, name: &str) -> RistrettoPoint {
+    match spec["b"].as_str().unwrap_or("free") {
+        "h" => *params.h_base(),
+        "g" => params.g_bases()[spec["k"].as_u64().unwrap_or(0) as usize],
+        "G" => *params.gi_base_iter().nth(spec["i"].as_u64().unwrap_or(0) as usize).expect("G index"),
+        "H" => *params.hi_base_iter().nth(spec["i"].as_u64().unwrap_or(0) as usize).expect("H index"),
+        _ => env::free_point(name),
+    }
+}
+
+/// Builds one batch member. cfg keys: m, cap, seeded, seed_name, name_idx, values ("sym" | list of strings),
+/// promises (list: null | "sym" | "eq" | number-string), witness_tamper, label.
 fn build_member(idx: usize, n: usize, x: usize, cfg: &Value, picker: &mut Picker, transcripts: &mut Vec<Transcript>) -> Member {
     let m = cfg["m"].as_u64().unwrap_or(1) as usize;
     let cap = cfg["cap"].as_u64().unwrap_or(m as u64) as usize;
     let seeded = cfg["seeded"].as_bool().unwrap_or(false);
     let sym_values = cfg["values"].as_str() == Some("sym");
+    let nidx = cfg["name_idx"].as_u64().map(|v| v as usize).unwrap_or(idx);
     let pc_gens = ristretto::create_pedersen_gens_with_extension_degree(ext_degree(x));
     let params = RangeParameters::init(n, cap, pc_gens).expect("RangeParameters::init");
-    let reserved: Vec<u64> = vec![0, 1, n as u64, m as u64, x as u64, cap as u64, 2, 3, 4, 5, 6, 8, 16, 32, 64];
-    for r in reserved {
+    for r in [0u64, 1, n as u64, m as u64, x as u64, cap as u64, 2, 3, 4, 5, 6, 8, 16, 32, 64] {
         if !picker.used.contains(&r) {
             picker.used.push(r);
         }
@@ -231,10 +138,9 @@ fn build_member(idx: usize, n: usize, x: usize, cfg: &Value, picker: &mut Picker
     let mut promises: Vec<Option<u64>> = Vec::new();
     let mut vinfo = Vec::new();
     for j in 0..m {
-        // value
         let explicit = cfg["values"].get(j).and_then(|v| v.as_str()).and_then(|s| s.parse::<u64>().ok());
         let pmode = cfg["promises"].get(j).cloned().unwrap_or(Value::Null);
-        let (v, vsym) = match explicit {
+        let (v, mut vsym) = match explicit {
             Some(v) => (v, false),
             None => {
                 if sym_values {
@@ -248,15 +154,9 @@ fn build_member(idx: usize, n: usize, x: usize, cfg: &Value, picker: &mut Picker
             },
         };
         if vsym {
-            with(|c| {
-                let node = c.var(&format!("v_{}_{}", idx, j), "value", Some(symcore::fl::Fl::from_u64(v)), json!({"member":idx,"j":j}));
-                if let symcore::Op::Var(vid) = c.op(node).clone() {
-                    c.register_u64(v, U64Reg::Var(vid));
-                }
-            });
+            vsym = env::register_u64(&format!("v_{}_{}", nidx, j), "value", v, json!({"member":nidx,"j":j}));
         }
-        let (p, psym) = match &pmode {
-            Value::Null => (None, false),
+        let (p, mut psym) = match &pmode {
             Value::String(s) if s == "sym" => match picker.pick(7.min(v), v / 2) {
                 Some(p) => (Some(p), true),
                 None => (Some(v / 2), false),
@@ -266,103 +166,160 @@ fn build_member(idx: usize, n: usize, x: usize, cfg: &Value, picker: &mut Picker
             _ => (None, false),
         };
         if psym {
-            with(|c| {
-                let pv = p.unwrap();
-                let node = c.var(&format!("p_{}_{}", idx, j), "promise", Some(symcore::fl::Fl::from_u64(pv)), json!({"member":idx,"j":j}));
-                if let symcore::Op::Var(vid) = c.op(node).clone() {
-                    c.register_u64(pv, U64Reg::Var(vid));
-                }
-            });
+            psym = env::register_u64(&format!("p_{}_{}", nidx, j), "promise", p.unwrap(), json!({"member":nidx,"j":j}));
         }
         values.push(v);
         promises.push(p);
         vinfo.push(json!({"v": v.to_string(), "v_sym": vsym, "p": p.map(|x| x.to_string()), "p_sym": psym}));
     }
-    // blindings
     let mut openings = Vec::new();
     let mut commitments = Vec::new();
-    let mut blind_nodes = Vec::new();
+    let mut blindings: Vec<Vec<Scalar>> = Vec::new();
     for j in 0..m {
-        let r: Vec<Scalar> = (0..x).map(|k| Scalar::sym(&format!("r_{}_{}_{}", idx, j, k), "blinding")).collect();
-        blind_nodes.push(r.iter().map(|s| s.node()).collect::<Vec<_>>());
+        let r: Vec<Scalar> = (0..x).map(|k| env::sym_scalar(&format!("r_{}_{}_{}", nidx, j, k), "blinding")).collect();
         commitments.push(params.pc_gens().commit(&Scalar::from(values[j]), &r).expect("commit"));
-        openings.push(CommitmentOpening::new(values[j], r));
+        openings.push((values[j], r.clone()));
+        blindings.push(r);
     }
-    let seed = if seeded { Some(Scalar::sym(&format!("seed_{}", cfg["seed_name"].as_str().unwrap_or(&idx.to_string())), "seed")) } else { None };
-    let commit_ids: Vec<u32> = commitments.iter().map(|p| p.id()).collect();
+    // invalid witnesses (C06): the commitments stay those of the valid openings
+    let wt = &cfg["witness_tamper"];
+    let mut wt_info = Value::Null;
+    if !wt.is_null() {
+        let j = wt["j"].as_u64().unwrap_or(0) as usize;
+        match wt["op"].as_str().unwrap_or("") {
+            "blinding_delta" => {
+                let k = wt["k"].as_u64().unwrap_or(0) as usize;
+                let d = env::sym_scalar(&format!("wdelta_{}_{}", j, k), "delta");
+                openings[j].1[k] = openings[j].1[k] + d;
+                wt_info = json!({"delta": env::scalar_id(&d)});
+            },
+            "value_set" => {
+                openings[j].0 = wt["value"].as_str().unwrap().parse::<u64>().unwrap();
+            },
+            "drop_opening" => {
+                openings.pop();
+            },
+            "extra_opening" => {
+                let r: Vec<Scalar> = (0..x).map(|k| env::sym_scalar(&format!("r_extra_{}", k), "blinding")).collect();
+                openings.push((1, r));
+            },
+            "extra_blinding" => {
+                for (jj, o) in openings.iter_mut().enumerate() {
+                    o.1.push(env::sym_scalar(&format!("r_xb_{}", jj), "blinding"));
+                }
+            },
+            "fewer_blinding" => {
+                for o in openings.iter_mut() {
+                    o.1.pop();
+                }
+            },
+            "swap_openings" => {
+                let i = wt["i"].as_u64().unwrap() as usize;
+                openings.swap(i, j);
+            },
+            other => panic!("unknown witness tamper {}", other),
+        }
+    }
+    let seed = if seeded {
+        Some(env::sym_scalar(&format!("seed_{}", cfg["seed_name"].as_str().unwrap_or(&nidx.to_string())), "seed"))
+    } else {
+        None
+    };
+    let commit_ids: Vec<Value> = commitments.iter().map(env::point_id).collect();
     let statement = RangeStatement::init(params, commitments, promises.clone(), seed).expect("RangeStatement::init");
-    let witness = RangeWitness::init(openings).expect("RangeWitness::init");
+    let wres = RangeWitness::init(openings.into_iter().map(|(v, r)| CommitmentOpening::new(v, r)).collect());
+    let (witness, witness_err) = match wres {
+        Ok(w) => (Some(w), None),
+        Err(e) => (None, Some(format!("{:?}", e))),
+    };
     let label: &'static [u8] = match cfg["label"].as_str() {
         Some("alt") => b"alternative context",
         _ => b"symx context",
     };
     transcripts.push(Transcript::new(label));
-    Member {
-        statement,
-        witness: Some(witness),
-        proof: None,
-        info: json!({"idx":idx,"m":m,"cap":cap,"seeded":seeded,"seed_node": seed.map(|s| s.node()),
-            "values":vinfo,"blindings":blind_nodes,"commitments":commit_ids}),
-    }
+    let info = json!({"idx":idx,"m":m,"cap":cap,"seeded":seeded,"seed_node": seed.as_ref().map(env::scalar_id),
+        "values":vinfo,"blindings":blindings.iter().map(|r| r.iter().map(env::scalar_id).collect::<Vec<_>>()).collect::<Vec<_>>(),
+        "commitments":commit_ids,"witness_err":witness_err,"witness_tamper":wt_info});
+    Member { statement, witness, witness_err, proof: None, blindings, info }
 }
 
 fn run_batch(cfg: &Value) -> Value {
     let n = cfg["n"].as_u64().unwrap() as usize;
     let x = cfg["x"].as_u64().unwrap_or(1) as usize;
     let members_cfg = cfg["members"].as_array().expect("members").clone();
-    let mut picker = Picker { used: Vec::new(), salt: with(|c| c.seed) ^ 0x5eed };
+    let mut picker = Picker { used: Vec::new(), salt: env::seed() ^ 0x5eed };
     let mut transcripts: Vec<Transcript> = Vec::new();
     let mut members: Vec<Member> = Vec::new();
     for (i, mc) in members_cfg.iter().enumerate() {
         members.push(build_member(i, n, x, mc, &mut picker, &mut transcripts));
     }
     // prove
-    tari_bulletproofs_plus::verif_hooks::set_bit_hook(Some(bit_hook));
+    #[cfg(feature = "model")]
+    hook::install();
     let mut prove_out = Vec::new();
+    let mut rngs: Vec<SymRng> = Vec::new();
+    let mut all_proved = true;
     for (i, mem) in members.iter_mut().enumerate() {
         let mc = &members_cfg[i];
-        {
-            let mut h = HOOK.lock().unwrap();
-            h.enabled = mc["values"].as_str() == Some("sym") || mc["sym_bits"].as_bool().unwrap_or(false);
-            h.member = i;
-        }
-        let mut rng = SymRng::new(mc["rng"].as_str().unwrap_or("sym"));
+        #[cfg(feature = "model")]
+        hook::configure(mc["values"].as_str() == Some("sym") || mc["sym_bits"].as_bool().unwrap_or(false), i);
+        let mut rng = match mc["rng_replay_of"].as_u64() {
+            Some(k) => rngs[k as usize].replay(),
+            None => SymRng::new(mc["rng"].as_str().unwrap_or("sym"), &format!("stream{}", i)),
+        };
+        rngs.push(rng.replay());
         let mut t = transcripts[i].clone();
-        let ev0 = with(|c| c.events.len());
-        let w = mem.witness.take().unwrap();
+        let ev0 = env::events_len();
+        let w = match mem.witness.take() {
+            Some(w) => w,
+            None => {
+                prove_out.push(json!({"result":{"err":"witness constructor refused"},"events":[ev0,ev0]}));
+                all_proved = false;
+                continue;
+            },
+        };
         let st = &mem.statement;
         let r = catch_unwind(AssertUnwindSafe(|| RistrettoRangeProof::prove_with_rng(&mut t, st, &w, &mut rng)));
-        let ev1 = with(|c| c.events.len());
+        let ev1 = env::events_len();
         match r {
             Ok(res) => {
-                let mut o = json!({"result": err_json(&res), "events":[ev0, ev1], "log_after": t.log_id()});
+                let mut o = json!({"result": err_json(&res), "events":[ev0, ev1]});
                 if let Ok(p) = res {
                     let bytes = p.to_bytes();
-                    o["proof"] = proof_layout(&bytes);
-                    // serde round trip through bincode (C15)
+                    o["proof"] = env::layout(&bytes);
+                    o["proof_len"] = json!(bytes.len());
+                    // encode/decode round trip of prover output (C15)
+                    o["roundtrip"] = match RistrettoRangeProof::from_bytes(&bytes) {
+                        Ok(q) => json!({"decoded": true, "equal": q == p, "bytes_equal": q.to_bytes() == bytes}),
+                        Err(e) => json!({"decoded": false, "err": format!("{:?}", e)}),
+                    };
                     mem.proof = Some(p);
+                } else {
+                    all_proved = false;
                 }
                 prove_out.push(o);
             },
-            Err(_) => prove_out.push(json!({"result":"panic","events":[ev0,ev1]})),
+            Err(_) => {
+                all_proved = false;
+                prove_out.push(json!({"result":"panic","events":[ev0,ev1]}));
+            },
         }
         mem.witness = Some(w);
     }
-    HOOK.lock().unwrap().enabled = false;
+    #[cfg(feature = "model")]
+    hook::configure(false, 0);
+    let members_info: Vec<Value> = members.iter().map(|m| m.info.clone()).collect();
+    if !all_proved || cfg["prove_only"].as_bool().unwrap_or(false) {
+        return json!({"members": members_info, "prove": prove_out, "verify": Value::Null, "hook": hook_json()});
+    }
 
     // optional tampering of the proofs / statements before verification
     let mut proofs: Vec<RistrettoRangeProof> = Vec::new();
     let mut tamper_info = Vec::new();
     for (i, mem) in members.iter().enumerate() {
         let mc = &members_cfg[i];
-        let p = match &mem.proof {
-            Some(p) => p.clone(),
-            None => {
-                return json!({"members": members.iter().map(|m| m.info.clone()).collect::<Vec<_>>(), "prove": prove_out,
-                              "verify": Value::Null, "hook": hook_json()});
-            },
-        };
-        let (p2, ti) = codec::tamper_proof(&p, &mc["tamper"]);
+        let p = mem.proof.as_ref().unwrap();
+        let (p2, ti) = codec::tamper_proof(p, &mc["tamper"], &mem.statement.generators, i);
         tamper_info.push(ti);
         proofs.push(p2);
     }
@@ -380,62 +337,87 @@ fn run_batch(cfg: &Value) -> Value {
             _ => vtranscripts.push(transcripts[i].clone()),
         }
     }
-    // permutation of the batch at verification time
+    // permutation / selection of the batch at verification time
     if let Some(perm) = cfg["verify_order"].as_array() {
         let idx: Vec<usize> = perm.iter().map(|v| v.as_u64().unwrap() as usize).collect();
         statements = idx.iter().map(|i| statements[*i].clone()).collect();
         proofs = idx.iter().map(|i| proofs[*i].clone()).collect();
         vtranscripts = idx.iter().map(|i| vtranscripts[*i].clone()).collect();
     }
-    // forced decisions apply to verification only
-    if let Some(f) = cfg["forced"].as_array() {
-        with(|c| {
-            for e in f {
-                let kind = e[0].as_str().unwrap().to_string();
-                let base = *c.branch_counts.get(&kind).unwrap_or(&0);
-                c.forced.insert((kind, base + e[1].as_u64().unwrap() as u32), e[2].as_bool().unwrap());
-            }
-        });
+    // length mismatches between the three input sequences (C03/C16)
+    if let Some(k) = cfg["drop_last_statement"].as_u64() {
+        for _ in 0..k {
+            statements.pop();
+        }
     }
+    if let Some(k) = cfg["drop_last_proof"].as_u64() {
+        for _ in 0..k {
+            proofs.pop();
+        }
+    }
+    if let Some(k) = cfg["drop_last_transcript"].as_u64() {
+        for _ in 0..k {
+            vtranscripts.pop();
+        }
+    }
+    env::set_forced(&cfg["forced"]);
+    let verify_out = run_verify(cfg, &vtranscripts, &statements, &proofs);
+    json!({"members": members_info, "prove": prove_out, "tamper": tamper_info, "verify": verify_out, "hook": hook_json()})
+}
+
+pub fn run_verify(
+    cfg: &Value,
+    vtranscripts: &[Transcript],
+    statements: &[RangeStatement<RistrettoPoint>],
+    proofs: &[RistrettoRangeProof],
+) -> Vec<Value> {
     let mut verify_out = Vec::new();
     let actions: Vec<String> = match cfg["actions"].as_array() {
         Some(a) => a.iter().map(|v| v.as_str().unwrap().to_string()).collect(),
         None => vec![cfg["action"].as_str().unwrap_or("VerifyOnly").to_string()],
     };
     for act in actions {
-        let mut ts = vtranscripts.clone();
-        let ev0 = with(|c| c.events.len());
-        let w0 = with(|c| c.work);
-        let r = catch_unwind(AssertUnwindSafe(|| RangeProof::verify_batch(&mut ts, &statements, &proofs, action_of(&act))));
-        let ev1 = with(|c| c.events.len());
-        let w1 = with(|c| c.work);
+        let mut ts = vtranscripts.to_vec();
+        let ev0 = env::events_len();
+        let w0 = env::work();
+        let r = catch_unwind(AssertUnwindSafe(|| RangeProof::verify_batch(&mut ts, statements, proofs, action_of(&act))));
+        let ev1 = env::events_len();
+        let w1 = env::work();
+        #[cfg(feature = "model")]
         let logs_after: Vec<u32> = ts.iter().map(|t| t.log_id()).collect();
+        #[cfg(not(feature = "model"))]
+        let logs_after: Vec<String> = ts
+            .iter_mut()
+            .map(|t| {
+                let mut b = [0u8; 16];
+                t.challenge_bytes(b"replay-probe", &mut b);
+                env::hex(&b)
+            })
+            .collect();
         match r {
             Ok(res) => {
                 let mut o = json!({"action":act,"result": err_json(&res), "events":[ev0,ev1], "logs_after":logs_after,"work":w1-w0});
                 if let Ok(masks) = res {
-                    o["masks"] = Value::Array(
-                        masks
-                            .iter()
-                            .map(|mk: &Option<ExtendedMask>| match mk {
-                                None => Value::Null,
-                                Some(em) => json!(em.blindings().unwrap().iter().map(|s| s.node()).collect::<Vec<_>>()),
-                            })
-                            .collect(),
-                    );
+                    o["n_results"] = json!(masks.len());
+                    o["masks"] = masks_json(&masks);
                 }
                 verify_out.push(o);
             },
             Err(_) => verify_out.push(json!({"action":act,"result":"panic","events":[ev0,ev1]})),
         }
     }
-    json!({"members": members.iter().map(|m| m.info.clone()).collect::<Vec<_>>(), "prove": prove_out, "tamper": tamper_info,
-           "verify": verify_out, "hook": hook_json()})
+    verify_out
 }
 
 fn hook_json() -> Value {
-    let h = HOOK.lock().unwrap();
-    json!({"calls": h.calls, "side": h.side})
+    #[cfg(feature = "model")]
+    {
+        hook::to_json()
+    }
+    #[cfg(not(feature = "model"))]
+    {
+        Value::Null
+    }
 }
 
 fn main() {
@@ -445,16 +427,12 @@ fn main() {
     } else {
         serde_json::from_str(&arg).expect("json")
     };
-    // silence panic messages of expected panics (they are reported in the JSON)
-    std::panic::set_hook(Box::new(|info| {
-        with(|c| c.events.push(json!({"ev":"panic","msg": format!("{}", info)})));
-    }));
+    env::install_panic_hook();
     let out = match cfg["scenario"].as_str().unwrap_or("batch") {
         "batch" => run_batch(&cfg),
         "codec" => codec::run_codec(&cfg),
         "adversarial" => codec::run_adversarial(&cfg),
         other => json!({"error": format!("unknown scenario {}", other)}),
     };
-    let core = with(|c| c.dump());
-    println!("{}", json!({"config": cfg, "out": out, "core": core}));
+    println!("{}", json!({"flavour": env::FLAVOUR, "config": cfg, "out": out, "core": env::dump()}));
 }
